@@ -4,6 +4,7 @@ import (
 	"fmt"
 	"net/netip"
 	"sort"
+	"strings"
 	"time"
 
 	"github.com/pion/ice/v4"
@@ -462,6 +463,9 @@ func (in *c02Injector) injectOne() {
 	for _, dg := range d.W.InFlight() {
 		before[dg.ID] = true
 	}
+	// outstanding transactions: a message that fails authentication (or is an error response, a non-Binding
+	// method, an indication) must not use one up - the genuine answer would then be discarded as unknown
+	txBefore, txErr := ice.VerifPendingTransactions(target.A)
 	dg := d.W.Inject(src, dst, payload, "forged "+cat)
 	c.Fault("inject:" + cat)
 	c.Logf("inject %s src=%s(%s) dst=%s", cat, src, srcKind, dst)
@@ -479,6 +483,11 @@ func (in *c02Injector) injectOne() {
 		}
 	}
 	problems = append(problems, rig.Diff(pre, post, rig.DiffOpts{AllowLastRecv: allow})...)
+	if strings.Contains(cat, "integrity-") || strings.HasPrefix(cat, "err/") || strings.HasPrefix(cat, "nonbinding/") || cat == "indication" {
+		if txAfter, err := ice.VerifPendingTransactions(target.A); err == nil && txErr == nil && txAfter != txBefore {
+			problems = append(problems, fmt.Sprintf("outstanding Binding transactions %d -> %d", txBefore, txAfter))
+		}
+	}
 	if len(problems) > 0 {
 		c.Failf("C02/effect/"+catClass(cat), "forged %s (src=%s %s, dst=%s %s) had an observable effect on %s: %v",
 			cat, src, srcKind, dst, dstCand.Type(), target.Name, problems)
